@@ -17,8 +17,8 @@
   * A binary operator `a ∘ b` and its compound assignment `a ∘= b` are SEPARATE definitions.  The
     compound form is written as the sequence of field updates the Rust performs, so that
     "`a ∘= b` gives the same result as `a ∘ b`" is a statement about two definitions.
-    The model describes what the code DOES: `V2.subAssign` mirrors `SubAssign for Vector2`
-    literally (`self.0 -= rhs.0; self.0 -= rhs.0;`), which is not `V2.sub`.
+    The model describes what the code DOES, statement by statement (this is how finding D12 —
+    `SubAssign for Vector2` subtracting `rhs.0` twice — was caught; fixed in /repo 90eb331).
   * `assert!(!rhs.is_zero())` of `Div`/`DivAssign` is the `none` result (panic) of `div`/`divAssign`.
   * `norm` needs `hypot`/`sqrt`; the executable model never takes a root.  `unit_dir` is modelled by
     `unitDirPre`, which returns the *radicand* `s = ‖v‖²` and the unnormalised direction `v`; the
@@ -95,12 +95,12 @@ def V2.addAssign (a b : V2 α) : V2 α :=
 /-- `impl Sub<Vector2<T>> for Vector2<T>` -/
 def V2.sub (a b : V2 α) : V2 α := ⟨a.x - b.x, a.y - b.y⟩
 
-/-- `impl SubAssign<Vector2<T>> for Vector2<T>`: `self.0 -= rhs.0; self.0 -= rhs.0;`
-    (sic — the second statement repeats the first; `self.1` is never touched). -/
+/-- `impl SubAssign<Vector2<T>> for Vector2<T>`: `self.0 -= rhs.0; self.1 -= rhs.1;`
+    (until /repo commit 90eb331 the second statement repeated the first — finding D12, fixed). -/
 def V2.subAssign (a b : V2 α) : V2 α :=
   let s := a
   let s := { s with x := s.x - b.x }
-  let s := { s with x := s.x - b.x }
+  let s := { s with y := s.y - b.y }
   s
 
 /-- `impl Mul<T> for Vector2<T>` -/
